@@ -16,6 +16,7 @@ type H struct {
 	tier string
 	seed uint64
 	t0   time.Time
+	abort bool
 }
 
 func (h *H) logf(format string, a ...any) {
